@@ -17,6 +17,9 @@ func init() {
 				jobs = append(jobs, J("H_C03_fma", o, "d", c[0], "p", c[1]))
 			}
 			jobs = append(jobs, J("H_C03_fma", o, "d", 0, "p", 5, "alias", 3), J("H_C03_fma", o, "d", 0, "p", 19, "alias", 1))
+			// concrete multiplier mantissas (5000000000000000001, 1234567890123456789): x*y+u is linear in the unknowns,
+			// so ties and carries deep inside the 38-digit product are within the solver's reach
+			jobs = append(jobs, J("H_C03_fma", o, "d", 0, "p", 5, "ypat0", 3), J("H_C03_fma", o, "d", 0, "p", 19, "ypat0", 8))
 			// every form-class triple with a non-finite member, fresh receiver and receiver == u
 			for fx := 0; fx <= 2; fx++ {
 				for fy := 0; fy <= 2; fy++ {
@@ -42,7 +45,7 @@ func init() {
 		},
 		Witnesses: []string{"C03.separation"},
 		Bounds: map[string]string{
-			"quick":    "x, y, u one word each (product two words); alignment of u against the product d = 0; p in {19, 5}; receiver fresh, == x, == u; all 26 form-class triples with a zero or infinity, fresh receiver and receiver == u; all word values, signs, modes, exponents.",
+			"quick":    "x, y, u one word each (product two words); alignment of u against the product d = 0; p in {19, 5}; receiver fresh, == x, == u; the same with a concrete multiplier mantissa (5000000000000000001 at p=5, 1234567890123456789 at p=19); all 26 form-class triples with a zero or infinity, fresh receiver and receiver == u; all word values, signs, modes, exponents.",
 			"thorough": "as quick plus d in {5,1,19} with p in {10,19}, receiver == y, dirty receiver, u of two words.",
 		},
 		Outside:     []string{"wider operands", "alignments where u lies below the product's last digit (d < 0): those cells (e.g. d=-19) produce thousands of paths and a few solver timeouts and are not registered", "inputs whose intermediate product x*y leaves the int32 exponent range although x*y+u is representable: known finding KF-fma-product-range (reported as KNOWN-FINDING, every other violation is still reported)"},
@@ -250,7 +253,18 @@ func init() {
 				}
 			}
 			jobs = append(jobs, J("H_C14_toint", o, "fx", 0), J("H_C14_toint", o, "fx", 2))
+			// Rat: exactly x (cross-multiplied), Exact; big.Rat's gcd reduction modelled as the identity
+			for _, w := range []int{1, 2} {
+				for _, e := range []int{-40, -4, 0, 3, 18, 19, 20, 25, 38, 45} {
+					jobs = append(jobs, J("H_C14_rat", o, "w", w, "e", e))
+				}
+			}
+			jobs = append(jobs, J("H_C14_rat", o, "fx", 0), J("H_C14_rat", o, "fx", 2), J("H_C14_rat", o, "e", 0, "dirty", 1), J("H_C14_rat", o, "e", 25, "dirty", 1), J("H_C14_rat", o, "fx", 0, "dirty", 1))
+			// SetRat = a/b rounded once (small numerators/denominators: the quotient of two unknowns is nonlinear)
+			jobs = append(jobs, nat(J("H_C14_setrat", o, "p", 0, "da", 1, "db", 1)), nat(J("H_C14_setrat", o, "p", 1, "da", 1, "db", 1)), nat(J("H_C14_setrat", o, "p", 5, "da", 1, "db", 1)),
+				nat(J("H_C14_setrat", o, "p", 3, "da", 2, "db", 1)))
 			if tier == "thorough" {
+				jobs = append(jobs, J("H_C14_rat", o, "w", 3, "e", 30), J("H_C14_rat", o, "w", 3, "e", 60), J("H_C14_rat", o, "w", 3, "e", -2))
 				jobs = append(jobs, J("H_C14_setint", o, "n", 2, "p", 20), J("H_C14_setint", o, "n", 3, "p", 0))
 				for e := 2; e <= 41; e++ {
 					jobs = append(jobs, J("H_C14_toint", o, "w", 2, "e", e), J("H_C14_toint", o, "w", 3, "e", e))
@@ -259,12 +273,12 @@ func init() {
 			return jobs
 		},
 		Bounds: map[string]string{
-			"quick":    "SetInt64/SetUint64/NewDecimal: every 64-bit argument, receiver precision in {0,5,19,20}; SetInt: big.Int of 0-2 binary words; Int64/Uint64/Int/IsInt/MinPrec: x of 1-2 words with exponent in {-1,0,1,5,19,20,21,38,40}, zeros and infinities; all word values, signs.",
-			"thorough": "as quick plus SetInt of 3 binary words (and rounded 2-word), Int64/Uint64/Int for every exponent 2..41 with 2-3 word mantissas.",
+			"quick":    "SetInt64/SetUint64/NewDecimal: every 64-bit argument, receiver precision in {0,5,19,20}; SetInt: big.Int of 0-2 binary words; Int64/Uint64/Int/IsInt/MinPrec: x of 1-2 words with exponent in {-1,0,1,5,19,20,21,38,40}, zeros and infinities; Rat: x of 1-2 words with exponent in {-40,-4,0,3,18,19,20,25,38,45}, zeros, infinities, fresh and previously used *big.Rat receivers; SetRat: one-digit over one-digit fractions at precision {0,1,5} and two-digit over one-digit at precision 3, both signs, every mode; all word values, signs.",
+			"thorough": "as quick plus Rat of 3-word values, SetInt of 3 binary words (and rounded 2-word), Int64/Uint64/Int for every exponent 2..41 with 2-3 word mantissas.",
 		},
-		Outside:     []string{"Rat and SetRat (math/big.Rat arithmetic - gcd normalisation - is not encoded)", "thousand-digit arguments"},
-		Assumptions: []string{"math/big.Int accessor methods are executed from their SSA bodies; nat.bitLen is replaced by its documented value", archNote},
-		LevelText:   "Bounded symbolic model checking of the integer conversions against exact integer references (truncation toward zero, saturation, accuracy as the sign of the discarded part).",
+		Outside:     []string{"SetRat for fractions with more than two digits (the quotient of two unknowns is nonlinear; SetRat is SetInt+Quo, whose parts are decided by this check and by C01)", "big.Rat's own normalisation: (*big.Rat).norm is modelled as the identity (value-preserving), so Rat's result is compared as a value, not as a reduced fraction", "thousand-digit arguments"},
+		Assumptions: []string{"math/big.Int accessor methods are executed from their SSA bodies; nat.bitLen is replaced by its documented value; (*big.Rat).norm by the identity", archNote},
+		LevelText:   "Bounded symbolic model checking of the integer and rational conversions against exact integer references (truncation toward zero, saturation, accuracy as the sign of the discarded part).",
 		LevelNote:   trusted,
 		Timeout:     map[string]time.Duration{"quick": 150 * time.Second, "thorough": 300 * time.Second},
 	})
